@@ -356,6 +356,8 @@ def system_instructions(ctx) -> None:
 
 
 def run(ctx) -> None:
+    # nothing is computed from a loop variable after its loop ran to completion (it would be the last element's value)
+    shared.r_staleloop(ctx, ctx.prog.functions([m for m in ctx.prog.modules if m.startswith(('forml.flow._code', 'forml.flow._graph'))]))
     system_instructions(ctx)
     refusals(ctx)
     presets(ctx)
